@@ -1,6 +1,6 @@
 (* C12 — property theorems only: each restates the full statement and is closed by the lemma proved in Proofs/. *)
 From Coq Require Import ZArith List Bool.
-From NPS Require Import ListAux PySlice NumpySem Scatter BuildIdx XorBroadcast View Index Assign Reduce Scan RaOps Heap Hash HashRun BitArr RLE RLEOps RLE2d DataClass RowsSpec AssignSpec MapSpec Denote CounterProof FastIndices.
+From NPS Require Import ListAux PySlice NumpySem Scatter BuildIdx XorBroadcast View Index Assign Reduce Scan RaOps Heap Hash HashRun BitArr RLE RLEOps RLE2d DataClass RowsSpec AssignSpec MapSpec Denote CounterProof FastIndices HashRunProof.
 Import ListNotations.
 Open Scope Z_scope.
 
@@ -41,3 +41,9 @@ Theorem C12_fast_indices_correct :
        Forall (fun r : Z * Z => 1 <= snd r) rows -> fast_indices rows = spec_indices rows 1.
 Proof. exact fast_indices_correct. Qed.
 Print Assumptions C12_fast_indices_correct.
+
+Theorem C12_hash_run_refines :
+  forall (ops : list hop) (t : table Z) (d : assoc Z),
+       InvZ t d -> NoDup (map fst d) -> Forall2 out_equiv (hrun t ops) (srun d ops).
+Proof. exact hash_run_refines. Qed.
+Print Assumptions C12_hash_run_refines.
